@@ -18,13 +18,15 @@ EXPLANATION = ("PROVED (SMT, unbounded - every number of frames, detections per 
                "nodes_from_points_list (scale=None) creates exactly one node per point with the point's index as id, its time and position, no edges, "
                "and returns that same kind of mapping; the real "
                "nodes_from_segmentation (labels unique across time, with and without a scale) creates exactly one node per non-zero label of every frame with the frame as its time, the label as seg id and "
-               "the area and centroid of its own region measured with the given spacing, no edges, and files every frame's labels under the frame - so the frame mapping is proved for both constructions. "
+               "the area and centroid of its own region measured with the given spacing, no edges, and files every frame's labels under the frame - so the frame mapping is proved for both constructions; the real _get_iou_dict (single segmentation, labels unique across time) "
+               "records exactly the overlapping label pairs of consecutive frames with their IoU, and the real add_iou gives every candidate edge between consecutive frames the IoU of its two masks, 0 "
+               "without overlap, and changes nothing else (five more loop invariants). "
                "BOUNDED STAND-IN (node construction, IoU, and end-to-end cross-check): real compute_graph_from_points_list on every placement of <= 4 "
                "points into frames 0..3 (all gap patterns, pair-gap-pair) with positions from {0,1,3} and two distances, and compute_graph_from_seg (+IoU) "
                "on random small label videos with empty frames, against a brute-force reference.")
 ASSUMPTIONS = ["distances are abstracted by an uninterpreted predicate close(a, b, r); floats are not reasoned about",
                "bounded stand-in: exhaustive/sampled over the stated finite space, not a proof"]
-NOT_UNDER_CONTRACT = ["nodes_from_points_list with a scale (numpy broadcasting; scale=None is proved)", "add_iou", "_compute_ious",
+NOT_UNDER_CONTRACT = ["nodes_from_points_list with a scale (numpy broadcasting; scale=None is proved)", "_compute_ious (numpy body: assumed contract + bounded)", "_get_iou_dict / add_iou with multiseg=True",
                       "compute_graph_from_seg / compute_graph_from_points_list (compose the above)"]
 
 
